@@ -267,7 +267,7 @@ def generic_main(prop, tier: str, seed: int) -> int:
             cases = [[i, mix(seed, pid, i)] for i in range(start, min(n, start + per))]
             jobs.append({"mode": "cases", "cases": cases, "params": params})
         # dispatch in slices so that the wall budget can stop exploration early
-        slice_n = max(pool.workers * 2, 1)
+        slice_n = plan.get("slice") or max(pool.workers * 2, 1)
         done_jobs = 0
         for s in range(0, len(jobs), slice_n):
             if time.monotonic() - t0 > budget_s and done_jobs > 0:
